@@ -416,6 +416,25 @@ func main() {
 		// coerce.go: the strconv call inside each Coerce function and its constant arguments
 		pln("Definition go_coerce_calls : list (string * (string * list Z)) := [")
 		var lines []string
+		// integer constants declared in coerce.go (const base = 0; const ( bits64 = 64 )) stand for their values
+		intConsts := map[string]string{}
+		for _, d := range coerceF.Decls {
+			gd, ok := d.(*ast.GenDecl)
+			if !ok || gd.Tok != token.CONST {
+				continue
+			}
+			for _, sp := range gd.Specs {
+				vs, ok := sp.(*ast.ValueSpec)
+				if !ok || len(vs.Names) != len(vs.Values) {
+					continue
+				}
+				for i, n := range vs.Names {
+					if bl, ok := vs.Values[i].(*ast.BasicLit); ok && bl.Kind == token.INT {
+						intConsts[n.Name] = bl.Value
+					}
+				}
+			}
+		}
 		for _, d := range coerceF.Decls {
 			fd, ok := d.(*ast.FuncDecl)
 			if !ok || !strings.HasPrefix(fd.Name.Name, "Coerce") {
@@ -435,6 +454,12 @@ func main() {
 			}
 			var args []string
 			for _, a := range call.Args[1:] {
+				if id, isId := a.(*ast.Ident); isId {
+					if v, known := intConsts[id.Name]; known {
+						args = append(args, v)
+						continue
+					}
+				}
 				bl, ok := a.(*ast.BasicLit)
 				if !ok || bl.Kind != token.INT {
 					die("%s: non-constant strconv argument", fd.Name.Name)
